@@ -4,15 +4,17 @@
    exactly this dump's regions, each inside this image with the target's bytes; the exception
    stream's context is this image's blamed-thread context (or empty when that thread is not
    listed); stacks are filtered by this dump's principal mapping only; the caller's entry address and
-   mappings, which stay configured, are honoured by every dump.                        *)
+   mappings, which stay configured, are honoured by every dump; no dump changes what the caller has
+   configured; and two dumps of one history taken under the same configuration give the threads that
+   did not move in between the same stack regions (a fresh writer's, since the first of them was one). *)
 EXTENDS Integers, Sequences, FiniteSets, TLC, Json, IOUtils
 Rec == ndJsonDeserialize(IOEnv.TRACE)
-VARIABLES l, viol, drift, nchk, nlater
-vars == <<l, viol, drift, nchk, nlater>>
+VARIABLES l, viol, drift, nchk, nlater, first     \* first: configuration key -> parked stacks of the first successful dump of this history under it
+vars == <<l, viol, drift, nchk, nlater, first>>
 E == Rec[l]
 NTag(seq, tag) == Cardinality({k \in 1..Len(seq) : seq[k][2] = tag})
 Note(cond, seq, tag) == IF cond \/ NTag(seq, tag) >= 60 THEN seq ELSE Append(seq, <<l, tag>>)
-Init == l = 1 /\ viol = <<>> /\ drift = <<>> /\ nchk = 0 /\ nlater = 0
+Init == l = 1 /\ viol = <<>> /\ drift = <<>> /\ nchk = 0 /\ nlater = 0 /\ first = <<>>
 CtxSize == 1232
 Dump == /\ E.ev = "c19"
         /\ LET v1 == Note(E.outcome = (IF "expectErr" \in DOMAIN E /\ E.expectErr THEN "err" ELSE "ok"), viol, "C19-later-dump-failed")
@@ -21,7 +23,11 @@ Dump == /\ E.ev = "c19"
                                               ELSE E.excCtxSize = 0, v2, "C19-crashing-context-of-an-earlier-dump")
                v4 == Note(E.outcome = "ok" /\ E.skip /\ ~E.principalResolves => E.nStacks = 0, v3, "C19-principal-mapping-of-an-earlier-dump")
                v5 == Note(E.outcome = "ok" => E.entryOk /\ E.userOk, v4, "C19-caller-supplied-option-not-applied-in-a-later-dump")
-           IN viol' = v5
+               known == IF E.dumpNo = 1 THEN <<>> ELSE first          \* a new history starts with its dump no. 1
+               v6 == Note(E.cfgChanged = "", v5, "C19-caller-configuration-changed-by-a-dump")
+               v7 == Note(E.outcome = "ok" /\ E.cfgKey \in DOMAIN known => E.parkedStacks = known[E.cfgKey], v6, "C19-stacks-differ-from-an-earlier-dump-under-the-same-configuration")
+           IN /\ viol' = v7
+              /\ first' = IF E.outcome = "ok" /\ E.cfgKey \notin DOMAIN known THEN (E.cfgKey :> E.parkedStacks) @@ known ELSE known
         /\ drift' = drift /\ nchk' = nchk + 1 /\ nlater' = nlater + (IF E.dumpNo > 1 THEN 1 ELSE 0)
 Next == l <= Len(Rec) /\ Dump /\ l' = l + 1
 Spec == Init /\ [][Next]_vars
